@@ -116,7 +116,7 @@ def add_div(chk, kind, where, wit, text):
 
 
 def replay(chk, exe, g, elem, usable, nc, tag):
-    init = json.dumps([dict(st="absent", cap=0, seq=[]) for _ in range(nc)], separators=(",", ":"), sort_keys=True)
+    init = json.dumps([dict(st="absent", cap=0, seq=[], mf=False) for _ in range(nc)], separators=(",", ":"), sort_keys=True)
     paths, ncov, unreach = g.tours(init, max_len=30, usable=usable)
     cases = [dict(elem=elem, nc=nc, steps=[dict(op=g.edges[i][1]["op"], args=g.edges[i][1]["args"]) for i in p]) for p in paths]
     obs = vc.run_cases(exe, cases, chk.out, tag, per_case_timeout=10)
